@@ -10,7 +10,7 @@ READY = True
 THEOREMS = [
     "C12.marks", "C12.resize_exact", "C12.fit_exact", "C12.blanks_are_blanks", "C12.width_bounds", "C12.rectangular", "C12.separators",
     "C12.cell_content", "C12.cell_default", "C12.full_when_fits", "C12.title_content", "C12.limits",
-    "C12.print_twice", "C12.interleaved", "C12.fmt_obj_same", "C12.ctor_options", "C12.fmt_obj_ignores_printing", "C12.field_positions",
+    "C12.print_twice", "C12.interleaved", "C12.interleaved_run", "C12.fmt_obj_same", "C12.ctor_options", "C12.fmt_obj_ignores_printing", "C12.field_positions",
     "C12.setter_bounds", "C12.ctor_bounds", "C12.widths_faithful",
 ]
 
@@ -455,7 +455,7 @@ def make_custom_type(mn, mx, al, tag, banned):
 def build_table(toks):
     from ak.ppobj import PPTable
     records, kw = decode(toks)
-    return PPTable(records, **kw)
+    return PPTable(list(records), **kw)
 
 
 def render_lines(table):
@@ -538,6 +538,33 @@ def build_from_fmt_obj(pf, via, toks):
     return PPTable(records2, fmt_obj=fobj, **kw2)
 
 
+def run_siblings(pf, via, toks):
+    """A and B from ONE format object; A printed, B built (with its own limits= / skip_columns=) and printed,
+    A printed again, then the donor table (when the object is a table's format)"""
+    from ak.ppobj import PPTable, PPTableFormat
+    donor, ra, rb = split_at(toks)
+    dt = None
+    if via == "1":
+        records, kw = decode(donor)
+        fobj = PPTableFormat.make(kw.get("fmt"), kw.get("fields"), kw.get("fields_types"), kw.get("fields_titles"),
+                                  records[0] if records else None)
+    else:
+        dt = build_table(donor)
+        if pf == "1":
+            render_lines(dt)
+        fobj = dt.fmt
+    recs_a, kw_a = dec_rest(ra)
+    recs_b, kw_b = dec_rest(rb)
+    ta = PPTable(recs_a, fmt_obj=fobj, **kw_a)
+    out = [render_lines(ta)]
+    tb = PPTable(recs_b, fmt_obj=fobj, **kw_b)
+    out.append(render_lines(tb))
+    out.append(render_lines(ta))
+    if dt is not None:
+        out.append(render_lines(dt))
+    return "ok " + " ".join([str(len(out))] + [show_lines(x) for x in out])
+
+
 def _line_text(l):
     return l.plain_text() if hasattr(l, "plain_text") else "".join(c.text for c in l)
 
@@ -545,7 +572,7 @@ def _line_text(l):
 def run_interleaved(toks):
     """several line iterators over several tables, advanced as the schedule says, then drained in order"""
     groups = split_at(toks)
-    specs, its, sched = groups[:-2], [int(x) for x in groups[-2]], [int(x) for x in groups[-1]]
+    specs, its, sched = groups[:-2], [int(x) for x in groups[-2]], groups[-1]
     tables = [build_table(sp) for sp in specs]
     iters = [iter(tables[i].ch_text(no_color=True)) for i in its]
     got = [[] for _ in its]
@@ -557,9 +584,15 @@ def run_interleaved(toks):
                 got[i].append(_line_text(next(iters[i])))
             except StopIteration:
                 done[i] = True
-    for i in sched:
-        if i < len(its):
-            advance(i)
+    for tok in sched:
+        if tok[0] == "L":       # the caller changes the limits of the live format object
+            ti, a, b = tok[1:].split(":")
+            tables[int(ti)].fmt.set_limits((None if a == "n" else int(a), None if b == "n" else int(b)))
+        elif tok[0] == "A":     # the caller appends a record to the list the table was given
+            ti, vals = tok[1:].split(":")
+            tables[int(ti)].records.append(tuple(dec_val(v) for v in vals.split("+")) if vals else ())
+        elif int(tok) < len(its):
+            advance(int(tok))
     for i in range(len(its)):
         while not done[i]:
             advance(i)
@@ -579,6 +612,8 @@ def impl(case):
                 out.append("ok " + show_lines(render_lines(build_from_fmt_obj(args[0], args[1], args[2:]))))
             elif op == "ilv":
                 out.append(run_interleaved(args))
+            elif op == "obj2":
+                out.append(run_siblings(args[0], args[1], args[2:]))
             elif op == "tset":
                 spec, fmt = split_at(args[1:])
                 t = build_table(spec)
@@ -601,7 +636,7 @@ def impl(case):
 
 def observable(i, line):
     # `fit` / `resize` lines exercise internal helpers directly: diagnostics only
-    return line.split(" ", 1)[0] in ("tbl", "obj", "ilv", "tset")
+    return line.split(" ", 1)[0] in ("tbl", "obj", "obj2", "ilv", "tset")
 
 
 # ------------------------------------------------------------------ oracle: the property itself
@@ -796,6 +831,32 @@ def oracle_table(desc, rep):
     return None
 
 
+def descs_at_start(descs, iters, sched):
+    """the description of its table at the moment each iterator is started (first advance; or the final drain)"""
+    import copy
+    cur = []
+    for d in descs:
+        d = copy.deepcopy(d)
+        if d.get("footer") is None:     # the default footer is made by the constructor and does not follow the list
+            d["footer"] = "Total %d records" % len(d["records"])
+        cur.append(d)
+    snap = {}
+    for tok in sched:
+        tok = str(tok)
+        if tok[0] == "L":
+            ti, a, b = tok[1:].split(":")
+            cur[int(ti)]["limits"] = [None if a == "n" else int(a), None if b == "n" else int(b)]
+        elif tok[0] == "A":
+            ti, vals = tok[1:].split(":")
+            cur[int(ti)]["records"].append([dec_val(v) for v in vals.split("+")] if vals else [])
+        elif int(tok) < len(iters) and int(tok) not in snap:
+            snap[int(tok)] = copy.deepcopy(cur[iters[int(tok)]])
+    for i in range(len(iters)):
+        if i not in snap:
+            snap[i] = copy.deepcopy(cur[iters[i]])
+    return snap
+
+
 def oracle(case, replies):
     desc = case.get("desc")
     for line, rep in zip(case["lines"], replies):
@@ -817,13 +878,30 @@ def oracle(case, replies):
                 return "interleaved-rejected: %s" % rep
             toks = rep.split()
             k, pos = int(toks[1]), 2
+            at_start = descs_at_start(descs, case["iters"], case["sched"])
             for it in range(k):
                 n = int(toks[pos])
                 one = "ok " + " ".join(toks[pos:pos + n + 1])
                 pos += n + 1
-                msg = oracle_table(descs[case["iters"][it]], one)
+                msg = oracle_table(at_start[it], one)
                 if msg:
                     return "interleaved-" + msg + " (iterator %d of table %d)" % (it, case["iters"][it])
+        elif op == "obj2":
+            ds = case.get("descs2")
+            if ds is None or not all(d.get("valid") for d in ds):
+                continue
+            if not rep.startswith("ok "):
+                return "siblings-rejected: %s" % rep
+            toks = rep.split()
+            k, pos = int(toks[1]), 2
+            for j in range(k):
+                n = int(toks[pos])
+                one = "ok " + " ".join(toks[pos:pos + n + 1])
+                pos += n + 1
+                msg = oracle_table(ds[j], one)
+                if msg:
+                    return "siblings-" + msg + " (%s)" % ["A", "B built with its own options", "A printed again",
+                                                         "the donor table"][j]
         elif op == "tbl":
             if desc is None or not desc.get("valid"):
                 # malformed stream: whatever is printed must still be rectangular
@@ -1225,7 +1303,57 @@ def gen_ilv_case(rng):
     steps = rng.randint(0, 40)
     sched = [rng.randrange(len(iters)) for _ in range(steps)] if rng.random() < 0.7 else \
         [i for _ in range(20) for i in range(len(iters))]      # zip(...)
+    if rng.random() < 0.5:
+        # the caller changes what a table shows while its lines are being consumed: new limits on the live format
+        # object, records appended to the list; zero-width columns make the widths worth re-checking
+        for d in descs:
+            if d["cols"] is not None and rng.random() < 0.7:
+                rng.choice(d["cols"])["w"] = rng.choice([[0, 0], [0, 0], [0, 3]])
+                d["fmt"] = fmt_str(rng, d["cols"], d["fmt_limits"])
+        for _ in range(rng.randint(1, 3)):
+            ti = rng.randrange(len(descs))
+            if rng.random() < 0.5:
+                ev = "L%d:%s:%s" % (ti, rng.choice(["n", 0, 1, 2, 5]), rng.choice(["n", 0, 1, 3]))
+            else:
+                rec = gen_records_like(rng, descs[ti], 1)[0]
+                rec = [v if not isinstance(v, str) else v + "wider" * rng.randint(0, 3) for v in rec]
+                ev = "A%d:%s" % (ti, "+".join(enc_val(v) for v in rec))
+            sched.insert(rng.randint(0, min(len(sched), 12)), ev)
     return mk_ilv_case(descs, iters, sched)
+
+
+def mk_obj2_case(rng, donor, pf, via, sa, sb, kind="siblings"):
+    a = mk_obj_case(rng, donor, pf, via, sa)["desc2"]
+    b = mk_obj_case(rng, donor, pf, via, sb)["desc2"]
+    ds = [a, b, a]
+    if via == 0:
+        ds.append(donor)
+    line = "obj2 %d %d %s @ %s @ %s" % (pf, via, encode(donor), enc_rest(sa), enc_rest(sb))
+    return {"lines": [line], "descs2": ds, "donor2": donor, "sa": sa, "sb": sb, "pf": pf, "via": via,
+            "meta": {"kind": kind}}
+
+
+def gen_obj2_case(rng):
+    """two tables from ONE format object; the second gets its own limits= / skip_columns=; the first is printed
+    before and after, the donor table at the end"""
+    donor = gen_desc(rng)
+    donor["skip"] = None
+    via = 1 if rng.random() < 0.4 else 0
+    if rng.random() < 0.6:      # the format object itself has no limits: every record of A is to be shown
+        donor["fmt_limits"], donor["limits"] = None, None
+        donor["fmt"] = fmt_str(rng, donor["cols"], None) if donor["cols"] is not None else None
+    if via == 1:
+        donor["limits"] = None
+    sa = {"records": gen_records_like(rng, donor, rng.choice([5, 6, 8, 9, 12])), "limits": None,
+          "header": None, "footer": None, "skip": None}
+    names = [f["name"] for f in donor["fields"]]
+    vis = [c["f"] for c in (donor["cols"] or [{"f": n, "w": None} for n in names]) if c["w"] != "hidden"]
+    sb = {"records": gen_records_like(rng, donor, rng.choice([0, 3, 7, 10])),
+          "limits": rng.choice([[rng.randint(0, 2), rng.randint(0, 2)], [rng.randint(0, 2), rng.randint(0, 2)], None]),
+          "header": rng.choice([None, "B"]), "footer": None, "skip": None}
+    if len(set(vis)) > 1 and rng.random() < 0.4:
+        sb["skip"] = [rng.choice(vis)]
+    return mk_obj2_case(rng, donor, 1 if rng.random() < 0.5 else 0, via, sa, sb)
 
 
 def corpus():
@@ -1256,6 +1384,8 @@ def gen_cases(rng, tier):
         yield gen_ilv_case(rng)
     for _ in range(500 if quick else 10000):
         yield gen_tset_case(rng)
+    for _ in range(400 if quick else 8000):
+        yield gen_obj2_case(rng)
     # helpers, directly
     for _ in range(600 if quick else 20000):
         chunks = [gen_text(rng, 6) for _ in range(rng.randint(0, 4))]
@@ -1329,9 +1459,10 @@ def _shrink_ilv(case):
     if len(iters) > 1:
         for i in range(len(iters)):
             its = iters[:i] + iters[i + 1:]
-            yield mk_ilv_case(descs, its, [x if x < i else x - 1 for x in sched if x != i])
+            yield mk_ilv_case(descs, its, [x if (isinstance(x, str) or x < i) else x - 1 for x in sched if x != i])
+    muts = any(isinstance(x, str) for x in sched)
     for k in range(len(descs)):
-        if k not in iters and len(descs) > 1:
+        if k not in iters and len(descs) > 1 and not muts:
             yield mk_ilv_case(descs[:k] + descs[k + 1:], [x if x < k else x - 1 for x in iters], sched)
         for small in shrink({"lines": ["tbl " + encode(descs[k])], "desc": descs[k], "meta": {}}):
             yield mk_ilv_case(descs[:k] + [small["desc"]] + descs[k + 1:], iters, sched)
@@ -1359,7 +1490,27 @@ def _shrink_tset(case):
             yield mk_tset_case(rng, b, case["pf"], cols, case["newlim"])
 
 
+def _shrink_obj2(case):
+    import copy
+    rng = random.Random(0)
+    for key in ("sa", "sb"):
+        sx = case[key]
+        for i in range(len(sx["records"])):
+            s2 = copy.deepcopy(sx)
+            del s2["records"][i]
+            yield mk_obj2_case(rng, case["donor2"], case["pf"], case["via"], s2 if key == "sa" else case["sa"],
+                               s2 if key == "sb" else case["sb"])
+    for small in shrink({"lines": ["tbl " + encode(case["donor2"])], "desc": case["donor2"], "meta": {}}):
+        if small["desc"].get("skip") is None:
+            yield mk_obj2_case(rng, small["desc"], case["pf"], case["via"], case["sa"], case["sb"])
+    if case["pf"]:
+        yield mk_obj2_case(rng, case["donor2"], 0, case["via"], case["sa"], case["sb"])
+
+
 def shrink(case):
+    if "donor2" in case:
+        yield from _shrink_obj2(case)
+        return
     if "newcols" in case:
         yield from _shrink_tset(case)
         return
@@ -1456,7 +1607,18 @@ def tags(case, replies):
             except Exception:
                 pass
         return
+    if "donor2" in case:
+        yield "siblings:" + ("format-made-directly" if case["via"] else "format-of-a-table")
+        if case["sb"].get("limits") is not None:
+            yield "siblings:second-has-own-limits"
+        if case["sb"].get("skip"):
+            yield "siblings:second-skips-a-column"
+        return
     if "descs" in case:
+        if any(str(x)[0] == "L" for x in case["sched"]):
+            yield "interleaved:limits-changed-meanwhile"
+        if any(str(x)[0] == "A" for x in case["sched"]):
+            yield "interleaved:record-appended-meanwhile"
         yield "interleaved:tables=%d" % len(set(case["iters"]))
         if len(set(case["iters"])) < len(case["iters"]):
             yield "interleaved:same-table-twice"
@@ -1505,8 +1667,10 @@ RULE = ("tables: 1-4 fields (one of them an enum in 40%), 0-12 records of mixed 
         "`fields` mixing names and RecordField objects with own positions; `table.fmt = <format>` on a fresh or "
         "printed table (zero and min=max bounds) then print; field-less tables; malformed formats/fields/records; tables built with fmt_obj= (format "
         "of another fresh/printed table or PPTableFormat.make, mostly asymmetric limits, other records); 2-4 line "
-        "iterators over 1-3 tables (also two over one table) advanced in a random or zip-like interleaving, each "
-        "judged against its own table; fit_to_width/resize_chunks_list "
+        "iterators over 1-3 tables (also two over one table) advanced in a random or zip-like interleaving, in half "
+        "of the cases with set_limits on the live format / records appended in between and zero-width columns, each "
+        "judged against its own table as it is when the iterator starts; two siblings from one format object, the "
+        "second with its own limits=/skip_columns=, the first and the donor printed again afterwards; fit_to_width/resize_chunks_list "
         "called directly (diagnostic lines). non-trivial = a table with at least one record or a rejected one; "
         "distinct by protocol line")
 TRUSTED = ["str() of int/float/bool/None (the float text and its exact ratio travel as data)",
